@@ -89,7 +89,7 @@ func runsFor(prop, tier string) []run {
 			{"2blk-punch", two, pick(4, 6), minutes(pickf(0.3, 4))},
 		}
 	case "C06":
-		alpha := []string{"W", "SnapU", "SnapA", "Rm", "Mark", "ReopenP", "ReloadULM", "Revert"}
+		alpha := []string{"W", "SnapU", "SnapA", "Rm", "Mark", "ReopenP", "ReloadULM", "ULMW", "Revert"}
 		c := ea.Cfg{Blocks: 3, Punch: true, Alphabet: alpha, WShapes: alignedShapes3, RShapes: [][2]int{{0, 24}}, Oracles: []string{"read", "snapdirect", "snaprevert"}, MaxSnaps: 3, SysRmOnly: true}
 		c2 := c
 		c2.WShapes = [][2]int{{0, 8}, {0, 16}, {8, 8}, {4, 8}, {3, 2}}
